@@ -5,12 +5,14 @@
 package c15
 
 import (
+	"bytes"
 	"fmt"
 	"math"
 	"reflect"
 	"strings"
 	"testing"
 	"time"
+	"verif/harness/internal/ref"
 
 	"github.com/brocaar/lorawan"
 	"github.com/brocaar/lorawan/band"
@@ -738,6 +740,28 @@ func (k *checker) cfListRoundTrip(ver string, cf *lorawan.CFList, freqs []uint32
 	if dd := same(jback.CFList); dd != "" {
 		return fmt.Sprintf("%s: join-accept round trip through %x: %s", k.where(), jb, dd)
 	}
+	// the join-accept as it goes on the air: MIC set, encrypted, serialised - and opened by a device written from the
+	// specification (AES-encrypt per block, own CMAC, own frame layout)
+	key := ref.Key{0x2b, 0x7e, 0x15, 0x16, 0x28, 0xae, 0xd2, 0xa6, 0xab, 0xf7, 0x15, 0x88, 0x09, 0xcf, 0x4f, 0x3c}
+	jaAir := ja
+	phy := lorawan.PHYPayload{MHDR: lorawan.MHDR{MType: lorawan.JoinAccept, Major: lorawan.LoRaWANR1}, MACPayload: &jaAir}
+	if err := phy.SetDownlinkJoinMIC(lorawan.JoinRequestType, lorawan.EUI64{}, 0, lorawan.AES128Key(key)); err != nil {
+		return fmt.Sprintf("%s: SetDownlinkJoinMIC on the join-accept with the band's CFList: %v", k.where(), err)
+	}
+	if err := phy.EncryptJoinAcceptPayload(lorawan.AES128Key(key)); err != nil {
+		return fmt.Sprintf("%s: EncryptJoinAcceptPayload on the join-accept with the band's CFList: %v", k.where(), err)
+	}
+	air, err := phy.MarshalBinary()
+	if err != nil || len(air) != 1+len(jb)+4 {
+		return fmt.Sprintf("%s: the encrypted join-accept with the band's CFList serialises to %x (err %v), want %d bytes", k.where(), air, err, 1+len(jb)+4)
+	}
+	clear := append([]byte{air[0]}, ref.JoinAcceptDecrypt(key, air[1:])...)
+	if !bytes.Equal(clear[1:1+len(jb)], jb) {
+		return fmt.Sprintf("%s: a device decrypting the join-accept %x (AES-encrypt per 16-byte block) reads the payload %x; the network sent %x (CFList %+v)", k.where(), air, clear[1:1+len(jb)], jb, cf.Payload)
+	}
+	if mic := ref.JoinAcceptMIC(key, false, 0xff, 0, 0, clear[:len(clear)-4]); !bytes.Equal(mic[:], clear[len(clear)-4:]) {
+		return fmt.Sprintf("%s: a device decrypting the join-accept %x finds the MIC %x, its own computation gives %x", k.where(), air, clear[len(clear)-4:], mic[:])
+	}
 	return ""
 }
 
@@ -1416,7 +1440,7 @@ func TestProp(t *testing.T) {
 	r := evid.Begin(t, "C15")
 	defer r.Finish()
 
-	const oracle = " Oracle: a model (slice of channel records {frequency, MinDR, MaxDR, enabled, custom}; AddChannel appends an enabled=(frequency != 0) custom record to uplink and downlink tables on the 11 dynamic plans and fails without effect on US915/AU915/CN470; Disable/Enable flip one flag for 0 <= i < n and fail otherwise). After EVERY step: the five index-set getters equal the model and partition, GetUplinkChannel/GetDownlinkChannel equal the model record by record, and so does the snapshot hook (taken on the fresh band, after every successful AddChannel and on the last step) (so standard channels never change), GetUplinkChannelIndex(f, default) and GetUplinkChannelIndexForFrequencyDR(f, dr) for every channel frequency x {default, custom} x DR {min, max, min-1, max+1} return a matching channel or an error exactly when none matches (all channels on the fresh band, on the last step and after an AddChannel that repeats an existing frequency; the op's channel and the newest channel on the other steps) (a match shadowed by another custom channel on the same frequency is counted, not judged), index n (n+1 too on the fresh band, the last step and after a frequency-repeating AddChannel) and the op's own integers are probed on GetUplinkChannel/GetDownlinkChannel/GetTXPowerOffset/GetRX1DataRateIndex (error, never panic; valid ones give the model value), GetEnabledUplinkDataRates (only while all DR ranges are small) is ascending, covers the enabled channels and nothing no channel has; GetCFList for the 6 protocol versions: fixed plans nil before 1.0.3, else exactly the enabled bits; dynamic plans the first five of the custom channels with DR 0..5 (0..7 on ISM2400; the harness's own constants) in order (disabled ones optional; in states with a zero-frequency candidate the list is positional: exactly the first five candidates, zeros included, or nil when the first is zero), nil if none; MAC layer: default and validly added channels through NewChannelReq / DLChannelReq, RX2 default through RXParamSetupReq, ping-slot frequency through PingSlotChannelReq and BeaconFreqReq, the CFList bare and inside a JoinAcceptPayload (a decoded list kept by value stays what it was while its variable decodes another list; a list the CFList encoder refuses must be refused by the join-accept encoder too), the planner's LinkADRReq payloads (device state = standard channels / none / all / the enabled set, one of them per step and all four on the fresh band and the last step), and the commands together in one downlink (RXParamSetupReq, PingSlotChannelReq, BeaconFreqReq, NewChannelReq and DLChannelReq of the newest and first channel - those the encoders accept - rotated by the device address, followed by the planner's LinkADRReq block: as FRMPayload of an encrypted port-0 downlink and, as many as fit 15 octets, as FOpts; frame encoded, decoded into a fresh PHYPayload, commands compared in order) - each must encode and decode to the same values (asserted only for frequencies that are valid caller input: multiple of 100 Hz in 0.1-1 GHz, multiple of 200 Hz in 2.4-2.5 GHz, or 0). ISM2400 frequencies refused with the max-value error by the five 100-Hz encoders are the known finding K3. Non-trivial: at least one successful AddChannel and one successful Disable, or a Disable/Enable with an invalid index."
+	const oracle = " Oracle: a model (slice of channel records {frequency, MinDR, MaxDR, enabled, custom}; AddChannel appends an enabled=(frequency != 0) custom record to uplink and downlink tables on the 11 dynamic plans and fails without effect on US915/AU915/CN470; Disable/Enable flip one flag for 0 <= i < n and fail otherwise). After EVERY step: the five index-set getters equal the model and partition, GetUplinkChannel/GetDownlinkChannel equal the model record by record, and so does the snapshot hook (taken on the fresh band, after every successful AddChannel and on the last step) (so standard channels never change), GetUplinkChannelIndex(f, default) and GetUplinkChannelIndexForFrequencyDR(f, dr) for every channel frequency x {default, custom} x DR {min, max, min-1, max+1} return a matching channel or an error exactly when none matches (all channels on the fresh band, on the last step and after an AddChannel that repeats an existing frequency; the op's channel and the newest channel on the other steps) (a match shadowed by another custom channel on the same frequency is counted, not judged), index n (n+1 too on the fresh band, the last step and after a frequency-repeating AddChannel) and the op's own integers are probed on GetUplinkChannel/GetDownlinkChannel/GetTXPowerOffset/GetRX1DataRateIndex (error, never panic; valid ones give the model value), GetEnabledUplinkDataRates (only while all DR ranges are small) is ascending, covers the enabled channels and nothing no channel has; GetCFList for the 6 protocol versions: fixed plans nil before 1.0.3, else exactly the enabled bits; dynamic plans the first five of the custom channels with DR 0..5 (0..7 on ISM2400; the harness's own constants) in order (disabled ones optional; in states with a zero-frequency candidate the list is positional: exactly the first five candidates, zeros included, or nil when the first is zero), nil if none; MAC layer: default and validly added channels through NewChannelReq / DLChannelReq, RX2 default through RXParamSetupReq, ping-slot frequency through PingSlotChannelReq and BeaconFreqReq, the CFList bare and inside a JoinAcceptPayload (a decoded list kept by value stays what it was while its variable decodes another list; a list the CFList encoder refuses must be refused by the join-accept encoder too; the join-accept with MIC set and encrypted is opened by a device written from the specification, which must read the same payload and a valid MIC), the planner's LinkADRReq payloads (device state = standard channels / none / all / the enabled set, one of them per step and all four on the fresh band and the last step), and the commands together in one downlink (RXParamSetupReq, PingSlotChannelReq, BeaconFreqReq, NewChannelReq and DLChannelReq of the newest and first channel - those the encoders accept - rotated by the device address, followed by the planner's LinkADRReq block: as FRMPayload of an encrypted port-0 downlink and, as many as fit 15 octets, as FOpts; frame encoded, decoded into a fresh PHYPayload, commands compared in order) - each must encode and decode to the same values (asserted only for frequencies that are valid caller input: multiple of 100 Hz in 0.1-1 GHz, multiple of 200 Hz in 2.4-2.5 GHz, or 0). ISM2400 frequencies refused with the max-value error by the five 100-Hz encoders are the known finding K3. Non-trivial: at least one successful AddChannel and one successful Disable, or a Disable/Enable with an invalid index."
 
 	// the K3 witness lives in this sub-check, so it runs first (the framework activates a known class when its witness fails)
 	evid.Rapid(r, t, "valid-histories",
